@@ -289,6 +289,16 @@ impl ModuleRef {
             .map(crate::time::Driver::verif_entry_ids)
     }
 
+    /// Verification hook (only with `--cfg petrichorit_des_verif`): a probe for the reference
+    /// counts of this module that does not keep the module alive.
+    #[cfg(all(petrichorit_des_verif, feature = "async"))]
+    #[must_use]
+    pub fn verif_own_probe(&self) -> VerifOwnProbe {
+        VerifOwnProbe {
+            weak: ModuleRefWeak::new(self),
+        }
+    }
+
     /// Creates a gate on the current module, returning its ID.
     ///
     #[must_use]
@@ -382,5 +392,48 @@ mod tests {
 
         module.as_mut::<A>().inner += 1;
         assert_eq!(*module.as_ref::<A>(), A { inner: 43 });
+    }
+}
+
+/// Verification hook (only with `--cfg petrichorit_des_verif`): see [`ModuleRef::verif_own_probe`].
+#[cfg(all(petrichorit_des_verif, feature = "async"))]
+#[derive(Debug, Clone)]
+pub struct VerifOwnProbe {
+    weak: ModuleRefWeak,
+}
+
+#[cfg(all(petrichorit_des_verif, feature = "async"))]
+impl VerifOwnProbe {
+    /// `None` once the module context or its processor is gone. Otherwise, with the
+    /// handles of the probe itself subtracted: `[ctx strong, ctx weak, processor strong,
+    /// processor weak, runtime strong (0: no runtime), local set strong]` followed by the
+    /// counts of the timer driver (`Driver::verif_own_counts`; empty while the module is
+    /// executing an event).
+    #[must_use]
+    pub fn counts(&self) -> Option<Vec<usize>> {
+        use super::ctx::rt::Rt;
+        let strong = self.weak.upgrade()?;
+        // `strong` is one more handle to both cells; every clone of this probe holds a weak one
+        let mut out = vec![
+            Arc::strong_count(&strong.ctx) - 1,
+            Arc::weak_count(&strong.ctx),
+            Arc::strong_count(&strong.processing) - 1,
+            Arc::weak_count(&strong.processing),
+        ];
+        let ext = strong.ctx.async_ext.read();
+        match &ext.rt {
+            Rt::Runtime((rt, set)) => {
+                out.push(Arc::strong_count(rt));
+                out.push(std::rc::Rc::strong_count(set));
+            }
+            _ => {
+                out.push(0);
+                out.push(0);
+            }
+        }
+        if let Some(driver) = ext.driver.as_ref() {
+            out.extend(driver.verif_own_counts());
+        }
+        Some(out)
     }
 }
